@@ -55,6 +55,15 @@ Theorem C13_left_unpaired_exactly_the_unmatched :
 Proof. exact join_unsorted_left_tail. Qed.
 Print Assumptions C13_left_unpaired_exactly_the_unmatched.
 
+(* unpaired records (--ul / --ur) are the input record unchanged apart from the renaming of its join fields to the output
+   names and the side prefix on the other fields: same values, same order (when the renamed names stay distinct) *)
+Theorem C13_unpaired_is_renaming_only :
+  forall o names prefix r,
+    NoDup (map (out_name o names prefix) (keys r)) ->
+    unpaired o names prefix r = map (fun kv => (out_name o names prefix (fst kv), snd kv)) r.
+Proof. exact unpaired_spec. Qed.
+Print Assumptions C13_unpaired_is_renaming_only.
+
 (* composition layout: the paired record starts with the join fields under their output names carrying the left values
    (all present, output names distinct); every other name comes from a non-join field with its side's prefix *)
 Theorem C13_composition_join_fields_first :
